@@ -19,6 +19,43 @@ package scen
 //     delivered the last item is still running; what the sub-searches do in
 //     the rest of that step is a race in the real system as well. From there
 //     on the run is drained without draws and traces (c08World.racyStop).
+//
+// Lazy consumer (drawn, "lazy-consumer"; added after a seeded change was
+// missed). The property quantifies over every cancellation instant and says
+// "the result channel is always closed, after completion or cancellation";
+// "the dual ... clients merge their sources under the same rules". One class of
+// instants exists only when the caller is not receiving at every moment: the
+// merging goroutine has taken a provider from a sub-search and is blocked
+// handing it to the caller (who is busy with the previous provider). As for
+// the other two clients, the consumer then takes an item only when the
+// scheduler lets it (kind "consume"), so a cancellation, the count-th item or
+// the end of both sub-searches can fall into a hand-over. No new rule: the
+// existing ones apply unchanged - not-closed (clause "always closed, after
+// completion or cancellation": after the caller's cancellation, or after the
+// count-th peer was taken, or after both sub-searches ended, a consumer that
+// goes on reading must see the close; the run waits until nothing is in flight
+// and 30 s of virtual time passed), repeat-merged, count-exceeded,
+// yield-unreported, missing-provider (count 0: a slow consumer loses nothing),
+// asked-after-count. Class of regressions exposed: any exit, wait or
+// accounting step of the merging goroutine that is only correct when the
+// hand-over to the caller never blocks (a way out that skips the close,
+// a sub-search result dropped or repeated around a blocked hand-over, a
+// countdown that moves before the item was actually taken).
+// Restrictions of the lazy variant, all three for determinism only:
+//   * only one of the two networks (the one that also holds the local records)
+//     names providers; the other one searches and answers with closer peers
+//     only. With providers on both sides, both sub-searches would sit blocked
+//     on their channels while the merging goroutine is blocked on the caller,
+//     and its next select would have two ready item cases (the Go runtime's
+//     choice, visible in the order of the yields);
+//   * the caller's context is not subscribed to query events: the dual client
+//     forwards the sub-searches' events from the same goroutine, between
+//     hand-overs, so with a caller that is not reading the event buffer fills
+//     up and publishers block inside go-libp2p's event channel under a plain
+//     sync.Mutex (not a durable block for the simulator, HARNESS pitfall 9);
+//   * when the consumer takes the count-th peer the scheduled part of the run
+//     ends as above; the consumer is then let read until it saw the close
+//     (c08World.drainLazyAfterCount).
 
 import (
 	"fmt"
@@ -30,6 +67,7 @@ import (
 	pb "github.com/libp2p/go-libp2p-kad-dht/pb"
 	"github.com/libp2p/go-libp2p-kad-dht/records"
 	"github.com/libp2p/go-libp2p/core/host"
+	"github.com/libp2p/go-libp2p/core/peer"
 	"github.com/libp2p/go-libp2p/core/protocol"
 	ma "github.com/multiformats/go-multiaddr"
 
@@ -42,23 +80,30 @@ import (
 func init() {
 	sim.Register(&sim.Scenario{Prop: "C08", Name: "find-providers-dual", Weight: 3, Run: func(s *sim.Sim) {
 		s.MaxSteps = 800
-		w := c08BuildDual(s)
+		w := c08BuildDual(s, false)
 		c08RunAndCheck(w)
 		s.Finish()
 	},
 		Real:   []string{"dual.DHT.FindProvidersAsync (merge, found-set, countdown, cancellation of the sub-searches)", "dual.New option wiring (WAN/LAN filters, LAN protocol extension)", "two IpfsDHT provider searches", "PublicQueryFilter / PrivateQueryFilter / WAN IP-diversity filter"},
 		Stub:   []string{"host.Host/network (simhost, one host shared by WAN and LAN)", "two pb.MessageSender (level A), told apart by protocol list", "remote peers (scripted)", "provider datastores (simds)"},
-		Faults: c08Faults,
+		Faults: append(append([]string{}, c08Faults...), c08LazyFaults...),
 	})
 }
 
-func c08BuildDual(s *sim.Sim) *c08World {
+// c08BuildDual builds the world around one dual client. racy: the variant of
+// c08_dual_racy.go (consumer always lazy, providers named on both networks).
+func c08BuildDual(s *sim.Sim, racy bool) *c08World {
 	c := c08GenCfg(s, "dual")
 	if c.N < 2 {
 		c.N = 2
 	}
+	lazy := racy || s.Chance("lazy-consumer", 1, 3)
+	if lazy {
+		c.QEvents = false // see the header comment
+	}
 	w := c08NewWorld(s, c)
-	w.merged, w.racyStop = true, true
+	w.merged, w.racyStop, w.lazy = true, true, lazy
+	w.lanPeer = map[peer.ID]bool{}
 	u := w.u
 
 	nW := s.Range("n-wan", 0, c.N)
@@ -120,12 +165,44 @@ func c08BuildDual(s *sim.Sim) *c08World {
 		dht.VerifSetShuffle(x.d, c08Shuffle(c08DrawShuffleSeed(s, x.l+"shuffle-remote")))
 		records.VerifSetShuffle(x.d.ProviderStore().(*records.ProviderManager), c08Shuffle(c08DrawShuffleSeed(s, x.l+"shuffle-local")))
 	}
-	localSide := "wan"
+	w.srcBits = map[peer.ID]int{}
+	for _, p := range lan {
+		w.lanPeer[p.ID] = true
+	}
+	localSide, otherSide, bit := "wan", lan, 1
 	if s.Chance("local-on-lan", 1, 2) {
-		localSide = "lan"
+		localSide, otherSide, bit = "lan", wan, 2
 		w.storeLocal(d.LAN.ProviderStore(), local)
 	} else {
 		w.storeLocal(d.WAN.ProviderStore(), local)
+	}
+	for _, e := range local {
+		w.srcBits[e.ID] |= bit
+	}
+	if racy && s.Chance("local-on-both", 1, 3) {
+		// a drawn part of the local records is stored on the other side as well
+		rng := newSubRng(s, "local-both")
+		var also []c08Named
+		for _, e := range local {
+			if rng.Intn(2) == 0 {
+				also = append(also, e)
+			}
+		}
+		if localSide == "wan" {
+			w.storeLocal(d.LAN.ProviderStore(), also)
+		} else {
+			w.storeLocal(d.WAN.ProviderStore(), also)
+		}
+		for _, e := range also {
+			w.srcBits[e.ID] |= 3
+		}
+		localSide += "+"
+	}
+	if w.lazy && !racy {
+		// providers are named on the side of the local records only
+		for _, p := range otherSide {
+			w.beh[p.ID].Provs = nil
+		}
 	}
 
 	// routing tables. The WAN table's diversity filter reads the remote address
@@ -149,7 +226,41 @@ func c08BuildDual(s *sim.Sim) *c08World {
 		_ = d.Close()
 		_ = w.host.Close()
 	}
-	s.Summary["cfg"] = fmt.Sprintf("client=dual N=%d wan=%d lan=%d Kw=%d aw=%d bw=%d Kl=%d al=%d bl=%d count=%d pool=%d local=%d(%s) tables=%d/%d faults=%d silent=%d qevents=%v cancelAt=%d",
-		c.N, len(wan), len(lan), sw.k, sw.alpha, sw.beta, sl.k, sl.alpha, sl.beta, c.Count, len(w.pool), len(w.local), localSide, tw, tl, c.FaultLevel, c.Silent, c.QEvents, c.CancelAt)
+	s.Summary["cfg"] = fmt.Sprintf("client=dual N=%d wan=%d lan=%d Kw=%d aw=%d bw=%d Kl=%d al=%d bl=%d count=%d pool=%d local=%d(%s) tables=%d/%d faults=%d silent=%d qevents=%v cancelAt=%d lazy=%v racy=%v",
+		c.N, len(wan), len(lan), sw.k, sw.alpha, sw.beta, sl.k, sl.alpha, sl.beta, c.Count, len(w.pool), len(w.local), localSide, tw, tl, c.FaultLevel, c.Silent, c.QEvents, c.CancelAt, w.lazy, racy)
 	return w
+}
+
+// twoSidedYields reports whether the closed search yielded at least one peer
+// known through the WAN side only and one known through the LAN side only.
+func (w *c08World) twoSidedYields() bool {
+	if w.op == nil || !w.closed {
+		return false
+	}
+	src := map[peer.ID]int{}
+	for id, b := range w.srcBits {
+		src[id] = b
+	}
+	for _, d := range w.deliveries {
+		if d.Kind != "reply" || !w.isSearchReq(d.RPC) {
+			continue
+		}
+		bit := 1
+		if w.lanPeer[d.From] {
+			bit = 2
+		}
+		for _, n := range d.Provs {
+			src[n.ID] |= bit
+		}
+	}
+	onlyWan, onlyLan := false, false
+	for _, y := range w.yields {
+		switch src[y.ID] {
+		case 1:
+			onlyWan = true
+		case 2:
+			onlyLan = true
+		}
+	}
+	return onlyWan && onlyLan
 }
